@@ -90,8 +90,11 @@ func runFileSink(rc *RunCtx, prop string, crash bool, faults bool) {
 	}
 	rc.Dir = dir
 	logDir := filepath.Join(dir, "logs")
-	if tp.Choose(3, "nested") == 0 {
+	switch tp.Choose(5, "nested") {
+	case 0:
 		logDir = filepath.Join(dir, "a", "b", "logs")
+	case 1:
+		logDir = filepath.Join(dir, "cpu-100%", "logs %d%s") // a directory name is not a format string
 	}
 	sink := &el.FileSink{Path: logDir}
 	sink.FileName = []string{"ev.log", "ev", "audit.txt"}[tp.Choose(3, "fname")]
